@@ -169,6 +169,69 @@ def annotate_operands(f):
     return f[:j + 1] + ghosts + f[j + 1:]
 
 
+EVAL_STATIC = r'''
+pub enum EvalError { MissingVar(Var), BadNode(BadNode) }   // variants checked against the real enum (thiserror derive dropped)
+/// R-indexvec: `IndexVec<Option<f32>, Node>` is a Vec indexed by `Node` (`cache[node]` is `cache.data[node.0]`, checked against indexed.rs)
+pub struct IndexVec { pub data: Vec<Option<f32>> }
+impl IndexVec {
+    pub fn len(&self) -> (r: usize) ensures r == self.data@.len() { self.data.len() }
+}
+/// R-vecmacro: `vec![None; n].into()`
+#[verifier::external_body]
+pub fn cache_new(n: usize) -> (r: IndexVec) ensures r.data@.len() == n, forall|i: int| 0 <= i < n ==> r.data@[i] is None { unimplemented!() }
+/// the assignment the map of supplied values stands for (a variable that is not supplied may have any value: evaluation fails before it is read)
+pub open spec fn env_of(vars: Map<Var, f32>, dflt: Env) -> Env { |v: Var| if vars.dom().contains(v) { vars[v] } else { dflt(v) } }
+/// every cached value is the meaning of its node
+pub open spec fn cache_ok(ops: Seq<Op>, cache: Seq<Option<f32>>, env: Env) -> bool {
+    forall|k: int| 0 <= k < cache.len() && k < ops.len() ==> (#[trigger] cache[k] is Some ==> cache[k]->Some_0 == sem(ops, k, env))
+}
+'''
+EVAL_SPEC = """
+        requires wf(self.ops@), vstd::std_specs::hash::obeys_key_model::<Var>(),
+        // Context::eval computes `sem`: the meaning the constructor contracts are stated in
+        ensures r is Ok ==> forall|d: Env| r->Ok_0 == sem(self.ops@, root.0 as int, #[trigger] env_of(vars@, d)),
+            (r is Err && r->Err_0 is BadNode) ==> root.0 >= self.ops@.len(),
+            (r is Err && r->Err_0 is MissingVar) ==> !vars@.dom().contains(r->Err_0->MissingVar_0)
+"""
+EVAL_INNER_SPEC = """
+        requires wf(self.ops@), vstd::std_specs::hash::obeys_key_model::<Var>(), old(cache).data@.len() == self.ops@.len(),
+            forall|d: Env| cache_ok(self.ops@, old(cache).data@, #[trigger] env_of(vars@, d)),
+        ensures final(cache).data@.len() == self.ops@.len(),
+            forall|d: Env| cache_ok(self.ops@, final(cache).data@, #[trigger] env_of(vars@, d)),
+            r is Ok ==> forall|d: Env| r->Ok_0 == sem(self.ops@, node.0 as int, #[trigger] env_of(vars@, d)),
+            (r is Err && r->Err_0 is BadNode) ==> node.0 >= self.ops@.len(),
+            (r is Err && r->Err_0 is MissingVar) ==> !vars@.dom().contains(r->Err_0->MissingVar_0)
+        decreases node.0
+"""
+
+
+def build_eval(src, a, b, trace):
+    """Context::eval / eval_inner on their real text: R-vecmacro (the cache), R-indexvec (`cache[node]`), R-closure-inline (the one-line
+    closure `get` that only forwards to `self.eval_inner(n, vars, cache)` is replaced by that call at its three call sites)"""
+    i, j, k = rsx.find_fn(src, 'eval', a, b)
+    f_eval = src[rsx.line_start(src, i):k]
+    f_eval, n = re.subn(r'vec!\[None; ([^\]]+)\]\.into\(\)', r'cache_new(\1)', f_eval)
+    if n != 1:
+        raise ExtractError('Context::eval: R-vecmacro site changed')
+    trace.fire('R-vecmacro')
+    i, j, k = rsx.find_fn(src, 'eval_inner', a, b)
+    f_in = src[rsx.line_start(src, i):k]
+    f_in, n = re.subn(r'cache: &mut IndexVec<Option<f32>, Node>', 'cache: &mut IndexVec', f_in)
+    if n != 1:
+        raise ExtractError('Context::eval_inner: cache parameter changed')
+    f_in, n = re.subn(r'\bcache\[(\w+)\]', r'cache.data[\1.0]', f_in)
+    trace.fire('R-indexvec', n + 1)
+    m = re.search(r'\n\s*let mut get = \|n: Node\| self\.eval_inner\(n, vars, cache\);', f_in)
+    if not m:
+        raise ExtractError('Context::eval_inner: R-closure-inline: the closure `get` changed')
+    f_in = f_in[:m.start()] + f_in[m.end():]
+    f_in, n = re.subn(r'(?<![\.\w])get\(([^()]+)\)', r'self.eval_inner(\1, vars, cache)', f_in)
+    if n < 1:
+        raise ExtractError('Context::eval_inner: no call of `get`')
+    trace.fire('R-closure-inline', n)
+    return f_eval, f_in
+
+
 def build(repo, trace):
     src = rsx.clean(open('%s/%s' % (repo, MOD_RS)).read(), trace)
     ops = rsx.clean(open('%s/%s' % (repo, OP_RS)).read(), trace)
@@ -226,6 +289,23 @@ def build(repo, trace):
             f = annotate_ifnz(f, trace)
         fns.append(f)
         trace.items.append((MOD_RS, 'Context::' + name))
+    eval_ok = False
+    try:
+        f_eval, f_in = build_eval(src, a, b, trace)
+        idxsrc = rsx.clean(open('%s/fidget-core/src/context/indexed.rs' % repo).read(), trace)
+        if len(re.findall(r'fn index\(&self, i: I\) -> &V \{\s*&self\.data\[i\.get\(\)\]\s*\}', idxsrc)) != 1 or len(re.findall(r'fn index_mut\(&mut self, i: I\) -> &mut V \{\s*&mut self\.data\[i\.get\(\)\]\s*\}', idxsrc)) != 1 \
+                or not re.search(r'fn get\(&self\) -> usize \{\s*self\.0\s*\}', idxsrc):
+            raise ExtractError('IndexVec Index impls changed: R-indexvec not applicable')
+        ee = rsx.get_item(src, r'^enum EvalError\b', 0, 'enum EvalError')
+        if 'MissingVar(Var)' not in ee or not re.search(r'BadNode\((?:#\[from\] )?BadNode\)', ee) or ee.count('(') - ee.count('#[') > 3:
+            raise ExtractError('enum EvalError changed')
+        fns += [f_eval, f_in]
+        trace.items += [(MOD_RS, 'Context::eval'), (MOD_RS, 'Context::eval_inner')]
+        eval_ok = True
+    except ExtractError as e:
+        trace.lost = getattr(trace, 'lost', {})
+        for q_ in ('Context::eval', 'Context::eval_inner'):
+            trace.lost.setdefault(q_, []).append('not extracted: %s' % e)
     body = 'impl Context {\n' + '\n\n'.join(fns) + '\n}\n'
     body, n = re.subn(r'\.map\(\|_\| \(\)\)', '.map(|x_| ())', body)
     trace.fire('R-closure-underscore', n)
@@ -235,9 +315,9 @@ def build(repo, trace):
     i2, j2, k2 = rsx.find_item(src, r'^impl IntoNode for f32\b', 0, 'impl IntoNode for f32')
     impls = src[i1:k1] + '\n\n' + src[i2:k2]
     trace.items.append((MOD_RS, 'trait IntoNode, impl IntoNode for Node, impl IntoNode for f32'))
-    trace.drop('Context::{eval, eval_inner, import, export, deriv, from_text, dot, ..} (HashMap, closures, recursion, IO): not under contract; '
+    trace.drop('Context::{import, export, deriv, from_text, dot, ..} (HashMap, closures, recursion, IO): not under contract; '
                'IndexMap (HashMap entry API): stub; Var, OrderedFloat: local stand-ins')
-    text = ('use vstd::prelude::*;\nuse vstd::std_specs::ops::*;\nuse vstd::std_specs::cmp::*;\nuse vstd::std_specs::convert::*;\nuse core::cmp::Ordering;\nverus! {\n'
+    text = ('use vstd::prelude::*;\nuse vstd::std_specs::ops::*;\nuse vstd::std_specs::cmp::*;\nuse vstd::std_specs::convert::*;\nuse core::cmp::Ordering;\nuse std::collections::HashMap;\nverus! {\n'
             + node + '\n' + un + '\n\n' + bn + '\n\n' + op + '\n\n' + choice_enum(repo, trace) + '\n' + extract_floatext(repo, trace) + '\n'
             + 'impl BinaryOpcode {\n' + bin_eval + '\n}\n\nimpl UnaryOpcode {\n' + un_eval + '\n}\n\n'
             + ctx + '\n\n' + body + '\n' + tr + '\n\n' + impls + '\n} // verus!\nfn main() {}\n')
@@ -260,7 +340,19 @@ def build(repo, trace):
     for (q, anchor, occ, before, proof) in gen['proofs']:
         inj.proof(q, anchor, proof, occ=occ, before=before)
     inj.append_items(gen['prelude'])
+    if eval_ok:
+        inj.append_items(EVAL_STATIC)
+        inj.spec('Context::eval', 'r: Result<f32, EvalError>', EVAL_SPEC)
+        inj.spec('Context::eval_inner', 'r: Result<f32, EvalError>', EVAL_INNER_SPEC)
+        inj.proof('Context::eval_inner', '$START', '        broadcast use vstd::std_specs::hash::group_hash_axioms;')
+        s_ = inj.s
+        s_ = s_.replace('#[derive(Copy, Clone)]\npub enum Var { X, Y, Z, V(u64) }', '#[derive(Copy, Clone, PartialEq, Eq, Hash)]\npub enum Var { X, Y, Z, V(u64) }')
+        s_ = s_.replace('    pub uninterp spec fn view(&self) -> Seq<Op>;\n', '    pub uninterp spec fn view(&self) -> Seq<Op>;\n    /// IndexMap::len: the number of stored values\n    #[verifier::external_body]\n    pub fn len(&self) -> (r: usize) ensures r == self@.len() { unimplemented!() }\n', 1)
+        inj.s = s_
     # the two opcode evaluators are also C01's "reference meaning of each opcode"
     obls = [Obligation('context::' + f, 'context', f, props=PROPS + (['C01'] if f in ('BinaryOpcode::eval', 'UnaryOpcode::eval') else [])) for f in gen['exec_fns']]
     obls += [Obligation('context::' + f, 'context', f, props=PROPS, kind='lemma') for f in gen['lemmas']]
+    if eval_ok:
+        for f in ('Context::eval', 'Context::eval_inner'):
+            obls.append(Obligation('context::' + f, 'context', f, props=PROPS + ['C01'], note='Context::eval computes sem: the reference meaning of a graph node that C01 and C12 are stated against'))
     return {'texts': {'base': inj.s}, 'obligations': obls, 'canary_fns': gen['canaries']}
